@@ -7,6 +7,8 @@ import Ampy.Driver.Scene
 import Ampy.Driver.Run
 import Ampy.Driver.Screen
 import Ampy.Driver.Hist
+import Ampy.Driver.Sys
+import Ampy.Driver.Scale
 /-
 Model driver: one request per input line, one canonical answer per output line.
 Run as a compiled executable (`lake build ampydrv`) or with `lake env lean --run Main.lean`.
@@ -27,6 +29,8 @@ def handle (line : String) : String :=
   | "RUN" :: rest => handleRun rest
   | "SCREEN" :: rest => handleScreen rest
   | "HIST" :: rest => handleHist rest
+  | "SYS" :: rest => handleSys rest
+  | "SCALE" :: rest => handleScale rest
   | "SPEC17" :: rest =>
     -- SPEC17 o1 o2 ... | TFTF
     match splitTok "|" rest with
